@@ -1,4 +1,4 @@
-CONSTANTS Families = {"one", "rsv"}  Bug = "NoActivate"  Emit = FALSE
+CONSTANTS Families = {"mini"}  Bug = "NoActivate"  Emit = FALSE
   TwoFlags = {}
   TwoSizes = {}
   ThreeSizes = {}
